@@ -79,6 +79,83 @@ theorem feedAllL_inv2 (M : Machine σ ε) (J : σ → List ε → Prop)
             · exact loop_inv2 M J hb hd _ _ _ _ _ _ hI _ _ _ hr
         exact ih st1 cache1 a hJ acc' st' c' h
 
+/-- a property `Q` of the events emitted so far that follows from a state-and-events invariant `J` and survives the
+    events of a failing step holds for the events of the Parse loop **whatever its outcome** (state and cache, error,
+    out of fuel) -/
+theorem loop_evs (M : Machine σ ε) (J : σ → List ε → Prop) (Q : List ε → Prop)
+    (hJQ : ∀ st acc, J st acc → Q acc)
+    (hb : ∀ st tok c s' u evs acc, J st acc → M.byteStep st tok c = .ok s' u evs → J s' (acc ++ evs))
+    (hbe : ∀ st tok c e evs acc, J st acc → M.byteStep st tok c = .err e evs → Q (acc ++ evs))
+    (hd : ∀ st d s' u evs acc, J st acc → M.blockDone st d = .ok s' u evs → J s' (acc ++ evs))
+    (hde : ∀ st d e evs acc, J st acc → M.blockDone st d = .err e evs → Q (acc ++ evs))
+    (buf : List UInt8) :
+    ∀ (fuel i start : Nat) (st : σ) (acc : List ε), J st acc → Q (loop M buf fuel i start st acc).evs := by
+  intro fuel
+  induction fuel with
+  | zero => intro i start st acc hI; simp only [loop]; exact hJQ st acc hI
+  | succ fuel ih =>
+    intro i start st acc hI
+    unfold loop
+    by_cases hi : i < buf.length
+    · simp only [hi, dite_true]
+      cases hblk : M.block st with
+      | some n =>
+        simp only
+        by_cases hl : buf.length - start ≥ n
+        · simp only [hl, if_true]
+          cases hbd : M.blockDone st ((buf.drop start).take n) with
+          | err e evs => exact hde _ _ _ _ _ hI hbd
+          | ok s' u evs => exact ih _ _ _ _ (hd _ _ _ _ _ _ hI hbd)
+        · simp only [hl, if_false]; exact hJQ st acc hI
+      | none =>
+        simp only
+        cases hbs : M.byteStep st ((buf.drop start).take (i - start)) buf[i] with
+        | err e evs => exact hbe _ _ _ _ _ _ hI hbs
+        | ok s' u evs => exact ih _ _ _ _ (hb _ _ _ _ _ _ _ hI hbs)
+    · simp only [hi, dite_false]; exact hJQ st acc hI
+
+/-- … and for the events of every chain of `Parse` calls, whatever its outcome -/
+theorem feedAllL_evs_prop (M : Machine σ ε) (J : σ → List ε → Prop) (Q : List ε → Prop)
+    (hJQ : ∀ st acc, J st acc → Q acc)
+    (hb : ∀ st tok c s' u evs acc, J st acc → M.byteStep st tok c = .ok s' u evs → J s' (acc ++ evs))
+    (hbe : ∀ st tok c e evs acc, J st acc → M.byteStep st tok c = .err e evs → Q (acc ++ evs))
+    (hd : ∀ st d s' u evs acc, J st acc → M.blockDone st d = .ok s' u evs → J s' (acc ++ evs))
+    (hde : ∀ st d e evs acc, J st acc → M.blockDone st d = .err e evs → Q (acc ++ evs))
+    (limit : Nat) :
+    ∀ (segs : List (List UInt8)) (st : σ) (cache : List UInt8) (acc : List ε), J st acc →
+      Q (feedAllL M limit st cache segs acc).evs := by
+  intro segs
+  induction segs with
+  | nil => intro st cache acc hI; simp only [feedAllL]; exact hJQ st acc hI
+  | cons seg segs ih =>
+    intro st cache acc hI
+    simp only [feedAllL, parseLC_eq]
+    have hQ : Q (parseL M limit st cache seg acc).evs := by
+      unfold parseL
+      split
+      · exact hJQ st acc hI
+      · unfold implParse
+        split
+        · exact hJQ st acc hI
+        · exact loop_evs M J Q hJQ hb hbe hd hde _ _ _ _ _ _ hI
+    cases hr : parseL M limit st cache seg acc with
+    | mk a fin =>
+      rw [hr] at hQ
+      cases fin with
+      | inr e => exact hQ
+      | inl pr =>
+        obtain ⟨st1, cache1⟩ := pr
+        have hJ : J st1 a := by
+          unfold parseL at hr
+          split at hr
+          · simp at hr
+          · unfold implParse at hr
+            split at hr
+            · simp only [Res.mk.injEq, Sum.inl.injEq, Prod.mk.injEq] at hr
+              obtain ⟨h1, h2, _⟩ := hr; subst h1 h2; exact hI
+            · exact loop_inv2 M J hb hd _ _ _ _ _ _ hI _ _ _ hr
+        exact ih st1 cache1 a hJ
+
 end Scan
 
 namespace Http
@@ -141,5 +218,147 @@ theorem feedAllL_held (g : Cfg) (limit : Nat) (segs : List Bytes) acc' st' c'
     (fun st d s' u evs acc hI hs => by
       rw [heldOf_append, ← hI]; exact blockDone_held g st d s' u evs hs)
     limit segs (init g) [] [] (by simp [init, heldOf]) acc' st' c' h
+
+/-! ### the bound between any two callbacks, and on failing calls -/
+
+def stepHeld (h : Nat) : Ev → Nat
+  | .body d => h + d.length
+  | .complete => 0
+  | _ => h
+
+theorem heldOf_cons (h : Nat) (e : Ev) (es : List Ev) : heldOf h (e :: es) = heldOf (stepHeld h e) es := by
+  simp only [heldOf, List.foldl_cons]
+  cases e <;> rfl
+
+/-- the largest value the body counter takes while the events are delivered one by one, starting from `h` -/
+def peak : Nat → List Ev → Nat
+  | h, [] => h
+  | h, e :: es => max h (peak (stepHeld h e) es)
+
+theorem le_peak (h : Nat) (evs : List Ev) : h ≤ peak h evs := by
+  cases evs with
+  | nil => exact Nat.le_refl _
+  | cons e es => exact Nat.le_max_left _ _
+
+theorem peak_append (a b : List Ev) : ∀ h, peak h (a ++ b) = max (peak h a) (peak (heldOf h a) b) := by
+  induction a with
+  | nil =>
+    intro h
+    have := le_peak h b
+    simp only [List.nil_append, peak, heldOf, List.foldl_nil]
+    omega
+  | cons e es ih =>
+    intro h
+    simp only [List.cons_append, peak, ih, heldOf_cons]
+    omega
+
+/-- `peak` bounds the counter after every prefix of the events: after the k first callbacks, for every k -/
+theorem take_le_peak (evs : List Ev) : ∀ (h k : Nat), heldOf h (evs.take k) ≤ peak h evs := by
+  induction evs with
+  | nil => intro h k; simp [heldOf, peak]
+  | cons e es ih =>
+    intro h k
+    cases k with
+    | zero => simp only [List.take_zero, heldOf, List.foldl_nil]; exact le_peak _ _
+    | succ k =>
+      simp only [List.take_succ_cons, heldOf_cons, peak]
+      have := ih (stepHeld h e) k
+      omega
+
+def noBody (evs : List Ev) : Bool := evs.all fun e => match e with | .body _ => false | _ => true
+
+theorem peak_noBody (evs : List Ev) : ∀ h, noBody evs = true → peak h evs = h := by
+  induction evs with
+  | nil => intro h _; rfl
+  | cons e es ih =>
+    intro h hn
+    simp only [noBody, List.all_cons, Bool.and_eq_true] at hn
+    have h2 := ih (stepHeld h e) (by simpa [noBody] using hn.2)
+    simp only [peak, h2]
+    cases e <;> simp_all [stepHeld]
+
+/-- no byte step hands body bytes over — neither a successful one … -/
+theorem byteStep_noBody (g : Cfg) (p : P) (tok : Bytes) (c : UInt8) (p' : P) (u : Upd) (evs : List Ev)
+    (h : byteStep g p tok c = .ok p' u evs) : noBody evs = true := by
+  unfold byteStep at h
+  split at h
+  all_goals (simp only [ok, er] at h)
+  all_goals (repeat' split at h)
+  all_goals first
+    | (cases h; done)
+    | (cases h; rfl)
+    | (cases h; simp [noBody]; done)
+    | skip
+
+/-- … nor a failing one -/
+theorem byteStep_err_noBody (g : Cfg) (p : P) (tok : Bytes) (c : UInt8) (e : Nat) (evs : List Ev)
+    (h : byteStep g p tok c = .err e evs) : noBody evs = true := by
+  unfold byteStep at h
+  split at h
+  all_goals (simp only [ok, er] at h)
+  all_goals (repeat' split at h)
+  all_goals first
+    | (cases h; done)
+    | (cases h; rfl)
+    | (cases h; simp [noBody]; done)
+    | skip
+
+theorem blockDone_err_nil (g : Cfg) (p : P) (d : Bytes) (e : Nat) (evs : List Ev)
+    (h : blockDone g p d = .err e evs) : evs = [] := by
+  unfold blockDone at h
+  split at h
+  · simp only [er] at h; cases h; rfl
+  · simp only [ok, er] at h
+    split at h <;> cases h
+    rfl
+
+/-- a completed block never lifts the counter above MaxHTTPBodySize, not even between its two callbacks -/
+theorem blockDone_peak (g : Cfg) (hm : g.maxBody > 0) (p : P) (d : Bytes) (p' : P) (u : Upd) (evs : List Ev)
+    (hp : p.bodyHeld ≤ g.maxBody) (h : blockDone g p d = .ok p' u evs) : peak p.bodyHeld evs ≤ g.maxBody := by
+  unfold blockDone at h
+  split at h
+  · simp [er] at h
+  · rename_i hlim
+    have hle : d.length + p.bodyHeld ≤ g.maxBody := by
+      simp only [gt_iff_lt, Bool.and_eq_true, decide_eq_true_eq, not_and, Nat.not_lt] at hlim
+      exact hlim hm
+    simp only [ok, er] at h
+    split at h
+    · cases h; simp only [peak, stepHeld]; omega
+    · cases h; simp only [peak, stepHeld]; omega
+    · cases h
+
+/-- **Body bound between any two callbacks, for every outcome.** With MaxHTTPBodySize set, along every chain of `Parse`
+    calls from a fresh parser — any segmentation, any ReadLimit, whether the chain ends with a parser state or with an
+    error — the body counter never exceeds the limit while the callbacks are delivered one by one. -/
+theorem feedAllL_peak (g : Cfg) (hm : g.maxBody > 0) (limit : Nat) (segs : List Bytes) :
+    peak 0 (feedAllL (machine g) limit (init g) [] segs []).evs ≤ g.maxBody :=
+  feedAllL_evs_prop (machine g)
+    (fun st acc => st.bodyHeld = heldOf 0 acc ∧ peak 0 acc ≤ g.maxBody) (fun acc => peak 0 acc ≤ g.maxBody)
+    (fun _ _ hJ => hJ.2)
+    (fun st tok c s' u evs acc hJ hs => by
+      have hk := take_le_peak acc 0 acc.length
+      rw [List.take_length] at hk
+      refine ⟨by rw [heldOf_append, ← hJ.1]; exact byteStep_held g st tok c s' u evs hs, ?_⟩
+      rw [peak_append, peak_noBody evs _ (byteStep_noBody g st tok c s' u evs hs)]
+      have := hJ.2; omega)
+    (fun st tok c e evs acc hJ hs => by
+      have hk := take_le_peak acc 0 acc.length
+      rw [List.take_length] at hk
+      show peak 0 (acc ++ evs) ≤ g.maxBody
+      rw [peak_append, peak_noBody evs _ (byteStep_err_noBody g st tok c e evs hs)]
+      have := hJ.2; omega)
+    (fun st d s' u evs acc hJ hs => by
+      have hk := take_le_peak acc 0 acc.length
+      rw [List.take_length] at hk
+      have hp : st.bodyHeld ≤ g.maxBody := by rw [hJ.1]; have := hJ.2; omega
+      refine ⟨by rw [heldOf_append, ← hJ.1]; exact blockDone_held g st d s' u evs hs, ?_⟩
+      rw [peak_append, ← hJ.1]
+      have := blockDone_peak g hm st d s' u evs hp hs
+      have := hJ.2; omega)
+    (fun st d e evs acc hJ hs => by
+      show peak 0 (acc ++ evs) ≤ g.maxBody
+      rw [blockDone_err_nil g st d e evs hs, List.append_nil]; exact hJ.2)
+    limit segs (init g) [] [] ⟨by simp [init, heldOf], by simp [peak]⟩
 
 end Http
